@@ -1,17 +1,18 @@
 pub struct CharCounter<'a>
 {
 	src: &'a str,
-	chars: Vec<char>,
 }
 
 
+/// All indices taken and returned by this type are byte indices
+/// into the source text (the unit `diagn::Span` uses); lines and
+/// columns are counted in characters.
 impl<'a> CharCounter<'a>
 {
 	pub fn new(src: &'a str) -> CharCounter
 	{
 		CharCounter {
 			src,
-			chars: src.chars().collect(),
 		}
 	}
 	
@@ -30,9 +31,9 @@ impl<'a> CharCounter<'a>
 	{
 		let mut lines = 1;
 		
-		for c in &self.chars
+		for c in self.src.chars()
 		{
-			if *c == '\n'
+			if c == '\n'
 				{ lines += 1; }
 		}
 		
@@ -48,18 +49,18 @@ impl<'a> CharCounter<'a>
 		let mut line = 0;
 		let mut column = 0;
 		
-		let mut i = 0;
-		while i < index && i < self.chars.len()
+		for (byte_index, c) in self.src.char_indices()
 		{
-			if self.chars[i] == '\n'
+			if byte_index >= index
+				{ break; }
+			
+			if c == '\n'
 			{
 				line += 1;
 				column = 0;
 			}
 			else
 				{ column += 1; }
-			
-			i += 1;
 		}
 		
 		(line, column)
@@ -74,26 +75,31 @@ impl<'a> CharCounter<'a>
 		let mut line_count = 0;
 		let mut line_begin = 0;
 		
-		while line_count < line && line_begin < self.chars.len()
+		if line > 0
 		{
-			line_begin += 1;
+			line_begin = self.src.len();
 			
-			if self.chars[line_begin - 1] == '\n'
-				{ line_count += 1; }
+			for (byte_index, c) in self.src.char_indices()
+			{
+				if c == '\n'
+				{
+					line_count += 1;
+					
+					if line_count == line
+					{
+						line_begin = byte_index + 1;
+						break;
+					}
+				}
+			}
 		}
 		
-		let mut line_end = line_begin;
-		while line_end < self.chars.len()
+		let line_end = match self.src[line_begin..].find('\n')
 		{
-			line_end += 1;
-			
-			if self.chars[line_end - 1] == '\n'
-				{ break; }
-		}
+			Some(offset) => line_begin + offset + 1,
+			None => self.src.len(),
+		};
 		
-		(
-			line_begin.try_into().unwrap(),
-			line_end.try_into().unwrap()
-		)
+		(line_begin, line_end)
 	}
 }
